@@ -37,10 +37,46 @@ static void drv_puthex(const uint8_t * p, size_t n)
 }
 
 /* Read a whole line (any length); returns NULL at EOF. Strips the newline. */
+/* Per-case watchdog of the drivers that run their cases in the reading process: every drv_getline()
+ * re-arms a timer on the process's own processor time (ITIMER_VIRTUAL: a busy machine does not trip
+ * it).  A case needs milliseconds; one that has used DRV_LINE_CPU_S seconds is looping.  The handler
+ * marks the output line of that case and ends the process, so the comparison with the model shows
+ * this very case as the first line that differs.  Drivers that fork a child per case define
+ * DRV_NO_LINE_WATCHDOG (the parent's time is spent forking, the children have drv_case_limits). */
+#ifndef DRV_NO_LINE_WATCHDOG
+#include <signal.h>
+#include <sys/time.h>
+#include <unistd.h>
+#ifndef DRV_LINE_CPU_S
+#define DRV_LINE_CPU_S 15
+#endif
+static void drv_line_hang(int sig)
+{
+	static const char msg[] = " !HANG(processor-time limit for one case)\n";
+	(void)sig;
+	if (write(1, msg, sizeof(msg) - 1) < 0) _exit(4);
+	_exit(3);
+}
+static void drv_line_watchdog(void)
+{
+	struct itimerval it;
+	static int armed = 0;
+	if (!armed) { signal(SIGVTALRM, drv_line_hang); armed = 1; }
+	it.it_interval.tv_sec = 0; it.it_interval.tv_usec = 0;
+	it.it_value.tv_sec = DRV_LINE_CPU_S; it.it_value.tv_usec = 0;
+	(void)setitimer(ITIMER_VIRTUAL, &it, NULL);
+}
+#else
+static void drv_line_watchdog(void) { }
+#endif
+
 static char * drv_getline(void)
 {
 	static char * buf = NULL; static size_t cap = 0;
-	ssize_t n = getline(&buf, &cap, stdin);
+	ssize_t n;
+	fflush(stdout);
+	drv_line_watchdog();
+	n = getline(&buf, &cap, stdin);
 	if (n < 0) return NULL;
 	while (n > 0 && (buf[n-1] == '\n' || buf[n-1] == '\r')) buf[--n] = 0;
 	return buf;
